@@ -276,6 +276,16 @@ func mutateNode(n *Node, rng *RNG, depth int) bool {
 			n.Kids[i], n.Kids[j] = n.Kids[j], n.Kids[i]
 			return true
 		}
+	case 4: // merge two adjacent constructed children of the same tag into one (two RDNs into a multi-valued one, …)
+		if len(n.Kids) > 1 && rng.Intn(3) == 0 {
+			i := rng.Intn(len(n.Kids) - 1)
+			a, b := n.Kids[i], n.Kids[i+1]
+			if !a.Prim && !b.Prim && a.Tag == b.Tag {
+				m := &Node{Tag: a.Tag, Kids: append(append([]*Node{}, a.Kids...), b.Kids...)}
+				n.Kids = append(append(append([]*Node{}, n.Kids[:i]...), m), n.Kids[i+2:]...)
+				return true
+			}
+		}
 	}
 	return mutateNode(n.Kids[rng.Intn(len(n.Kids))], rng, depth+1)
 }
@@ -388,6 +398,21 @@ func mutants(o *Obj, rng *RNG, n int, rep *Report) []*Obj {
 					}
 					if len(tbs.Kids) > 4+off {
 						target = tbs.Kids[4+off]
+						if len(target.Kids) > 1 && rng.Intn(4) == 0 {
+							// merge two RDNs into one multi-valued RDN; half the time the issuer becomes the same name
+							// (a name that occurs in both roles of one object)
+							i := rng.Intn(len(target.Kids) - 1)
+							if !target.Kids[i].Prim && !target.Kids[i+1].Prim {
+								merged := &Node{Tag: target.Kids[i].Tag, Kids: append(append([]*Node{}, target.Kids[i].Kids...), target.Kids[i+1].Kids...)}
+								target.Kids = append(append(append([]*Node{}, target.Kids[:i]...), merged), target.Kids[i+2:]...)
+								if rng.Intn(2) == 0 && len(tbs.Kids) > 2+off {
+									tbs.Kids[2+off] = target
+								}
+								changed = true
+								rep.count("mutant:merged-rdn")
+								continue
+							}
+						}
 						if len(target.Kids) > 0 && rng.Intn(2) == 0 {
 							// duplicate one RDN and spoil the value of the copy
 							i := rng.Intn(len(target.Kids))
